@@ -710,6 +710,12 @@ def gvs_worker(sym, nd, kind, param, seed, use_lean):
             if len(prod) <= 36 or h % 8 == 1:
                 probe = prod
                 flags = []
+                if h % 2 == 0 and len(prod) <= 81:
+                    # the predicate is a function of (indices, charge, sector) only: it must give the same
+                    # answers when the array happens to store blocks, including under non-conserving keys
+                    for sec in prod:
+                        arr.blocks[sec] = np.zeros((1,) * len(idx))
+                    res.stat("is_valid_sector_on_stored_keys")
                 for sec in prod:
                     st, v = _call(arr.is_valid_sector, sec)
                     flags.append(bool(v) if st == "ok" else None)
